@@ -21,12 +21,12 @@ func (t *Term) String() string { return printInline(t, 0) }
 
 // TB is a term builder: the hash-cons table plus the declarations of one verification unit.
 type TB struct {
-	tab     map[string]*Term
-	n       int
-	decls   []string          // declare-fun / declare-const lines in order
-	declSet map[string]bool   // by name
-	nfresh  int
-	structs []*structSort     // datatype declarations (emitted in one block)
+	tab         map[string]*Term
+	n           int
+	decls       []string        // declare-fun / declare-const lines in order
+	declSet     map[string]bool // by name
+	nfresh      int
+	structs     []*structSort // datatype declarations (emitted in one block)
 	structByKey map[string]*structSort
 	ifaceCtors  []ifaceCtor
 	ifaceByKey  map[string]int
